@@ -289,6 +289,33 @@ def _run(sut, backend, ops):
                              'get(%s) at effect #%d of %r: recipients %r attempts %r, expected %r / %r'
                              % (idb, k, a, env.recipients, attempts, rcs, (mb['attempts'], ma['attempts'])))
                 continue
+            if op[0] == 'workers':
+                # two workers, each running its own operations one after the other (yielding in between) on its own message
+                l = live()
+                if len(l) < 2:
+                    continue
+                ida, idb = l[0], l[1]
+                usable = lambda o, i: not (o[0] == 'deliver' and model[i]['marked'])
+
+                def work(ops_, i):
+                    for o in ops_:
+                        if o[0] == 'deliver' and model[i]['marked']:
+                            continue
+                        do(o, i)
+                        gevent.sleep(0)
+                g1 = gevent.spawn(work, op[1], ida)
+                g2 = gevent.spawn(work, op[2], idb)
+                gevent.joinall([g1, g2], timeout=15)
+                if not (g1.dead and g2.dead):
+                    g1.kill(block=False)
+                    g2.kill(block=False)
+                    fail('overlapped-operations-stall', 'two workers on different messages did not finish within 15 s: %r' % (op,))
+                    break
+                for g in (g1, g2):
+                    if g.exception is not None:
+                        raise g.exception
+                nontrivial = True
+                continue
             if op[0] == 'pair_write':
                 # a write overlapped with another write or with an operation on an existing message
                 a, b = op[1], op[2]
@@ -377,6 +404,7 @@ _inter = st.tuples(st.just('interleave'), _mut2,
 _write = st.tuples(st.just('write'), _wspec, _ts).map(list)
 _op = st.one_of(_prim, _prim, _prim, st.tuples(st.just('pair'), _pairable, _pairable).map(list),
                 st.tuples(st.just('pair_write'), _write, st.one_of(_write, _write, _pairable)).map(list),
+                st.tuples(st.just('workers'), st.lists(_pairable, min_size=2, max_size=4), st.lists(_pairable, min_size=1, max_size=4)).map(list),
                 st.tuples(st.just('pair_load'), _mut).map(list), _inter)
 _case = st.tuples(st.sampled_from(BACKENDS),
                   st.tuples(st.lists(st.tuples(st.just('write'), _wspec, _ts).map(list), min_size=2, max_size=5),
@@ -387,7 +415,7 @@ def run_shard(ctx):
     def one(v):
         backend, ops = v
         fails, nt = run_ops(backend, ops)
-        ctx.record(repr(v), nt, labels=['backend=' + backend] + (['overlap'] if any(o[0] in ('pair', 'pair_load', 'pair_write') for o in ops) else []),
+        ctx.record(repr(v), nt, labels=['backend=' + backend] + (['overlap'] if any(o[0] in ('pair', 'pair_load', 'pair_write', 'workers') for o in ops) else []),
                    case=lambda: {'backend': backend, 'ops': ops}, failures=fails)
     hyp.drive(ctx, _case, one, ctx.n(3000, 40000))
 
